@@ -21,7 +21,7 @@ import zlib
 
 import torch
 
-from . import common, opbuild as ob, c03_idx as ix, c03_lib as lib
+from . import common, opbuild as ob, c03_idx as ix, c03_lib as lib, c03_x as xl
 from .common import zlit, zlist, natlist
 
 PROP = "C03"
@@ -103,11 +103,12 @@ def shard(defs, ctype, cases, fn):
 
 def run_shards(ctx, tag, shards):
     """shards: list of (name, src, n_cases) -> list of global bad indices, or None when a shard failed"""
-    res = common.run_shards(ctx, [(n, s) for n, s, _ in shards])
+    res = common.run_shards(ctx, [(lib.RUN + n, s) for n, s, _ in shards])
+    lib.cleanup(ctx, [lib.RUN + n for n, _, _ in shards], res)
     bad, off = [], 0
     ok = True
     for name, _, cnt in shards:
-        rc, out = res[name]
+        rc, out = res[lib.RUN + name]
         b = common.parse_coq_list_of_nat(out) if rc == 0 else None
         if b is None:
             ctx.violation({"kind": "shard-failed", "layer": tag, "shard": name, "out": out[-700:]}, no_input=True)
@@ -933,7 +934,9 @@ def run(ctx):
         lib.TRIAGE = triage_l2
         lst = [lib.stage_getitem_py(ctx, rng, jobs),
                lib.stage_front(ctx, rng, jobs, run_index, tlit_of, idx_lit, otensor_lit),
-               lib.stage_classes(ctx, rng, jobs)]
+               lib.stage_classes(ctx, rng, jobs),
+               xl.stage_x(ctx, random.Random(ctx.seed * 31 + 5), jobs, instances(ctx)),
+               xl.stage_g(ctx, random.Random(ctx.seed * 31 + 6), jobs)]
         jobs.run(ctx)
         for d in lst:
             cov.update(d)
